@@ -165,6 +165,11 @@ pub fn dispatch(op: &str, req: &Value) -> Option<String> {
                 o.push_str(&format!(",\"checked_sub\":{}", guard(|| orng(a.checked_sub(off)))));
                 o.push_str(&format!(",\"add\":{}", guard(|| rng(a + off))));
                 o.push_str(&format!(",\"sub\":{}", guard(|| rng(a - off))));
+                // the by-reference forms of the operators (separate impls generated by a macro)
+                o.push_str(&format!(",\"add_ref\":[{},{},{}]", guard(|| rng(&a + off)), guard(|| rng(a + &off)), guard(|| rng(&a + &off))));
+                o.push_str(&format!(",\"sub_ref\":[{},{},{}]", guard(|| rng(&a - off)), guard(|| rng(a - &off)), guard(|| rng(&a - &off))));
+                o.push_str(&format!(",\"slice_mut\":[{},{}]", guard(|| { let mut t = text.to_string(); let m: &mut str = &mut t[a]; jstr(m) }),
+                    guard(|| { let mut t = text.to_string(); let m: &mut str = &mut t.as_mut_str()[a]; jstr(m) })));
                 o.push_str(&format!(",\"add_assign\":{}", guard(|| { let mut x = a; x += off; rng(x) })));
                 o.push_str(&format!(",\"sub_assign\":{}", guard(|| { let mut x = a; x -= off; rng(x) })));
                 o.push_str(&format!(",\"ordering\":\"{:?}\"", a.ordering(b)));
@@ -200,6 +205,10 @@ pub fn dispatch(op: &str, req: &Value) -> Option<String> {
             o.push_str(&format!(",\"ts_checked_sub\":{}", x.checked_sub(y).map(|v| u32::from(v).to_string()).unwrap_or("null".into())));
             o.push_str(&format!(",\"ts_add\":{}", guard(|| u32::from(x + y).to_string())));
             o.push_str(&format!(",\"ts_sub\":{}", guard(|| u32::from(x - y).to_string())));
+            o.push_str(&format!(",\"ts_add_ref\":[{},{},{}]", guard(|| u32::from(&x + y).to_string()), guard(|| u32::from(x + &y).to_string()), guard(|| u32::from(&x + &y).to_string())));
+            o.push_str(&format!(",\"ts_sub_ref\":[{},{},{}]", guard(|| u32::from(&x - y).to_string()), guard(|| u32::from(x - &y).to_string()), guard(|| u32::from(&x - &y).to_string())));
+            o.push_str(&format!(",\"ts_add_assign\":{}", guard(|| { let mut v = x; v += y; u32::from(v).to_string() })));
+            o.push_str(&format!(",\"ts_sub_assign\":{}", guard(|| { let mut v = x; v -= y; u32::from(v).to_string() })));
             o.push_str(&format!(",\"ts_cmp\":\"{:?}\"", x.cmp(&y)));
             o.push_str(&format!(",\"ts_to_u32\":{},\"ts_to_usize\":{},\"ts_new\":{}", x.to_u32(), x.to_usize(), u32::from(TextSize::new(a0))));
             o.push_str(&format!(",\"ts_sum\":{}", guard(|| u32::from([x, y, off].iter().copied().sum::<TextSize>()).to_string())));
